@@ -90,17 +90,20 @@ def scan_facts(prog, mapb, nfields):
 
     def at_state(rel, env, S):
         """the relation with head symbols replaced by the values of a concrete state"""
-        out = rel
-        for n in sc.carried:
-            v = env.get(n)
-            if f"{n}@0" in out.t:
+        # simultaneous substitution: a replacement may itself mention head symbols
+        out = Aff.const(rel.c)
+        for sym_, k_ in rel.t.items():
+            if sym_ == "S@0":
+                if S is None:
+                    return None
+                out = out + S.scale(k_)
+            elif sym_.endswith("@0") and sym_[:-2] in sc.carried:
+                v = env.get(sym_[:-2])
                 if not isinstance(v, Aff):
                     return None
-                out = out.subst(f"{n}@0", v)
-        if "S@0" in out.t:
-            if S is None:
-                return None
-            out = out.subst("S@0", S)
+                out = out + v.scale(k_)
+            else:
+                out = out + Aff({sym_: k_})
         return out
 
     proved = {}
@@ -262,3 +265,73 @@ def truncate_facts(prog, mapb, nfields):
         if not cuts:
             it.run([top]) if not isinstance(top, (ast.If,)) or not any(isinstance(x, ast.Call) and "truncate" in norm(x.func) for x in ast.walk(top)) else None
     return out
+
+
+def put_facts(prog, put, nfields):
+    """UKVFile.put by stream offsets: what is written, where, in which order; what is indexed; where _eof ends up."""
+    from ..affine import Packed, StreamInterp
+
+    rec_cls = prog.cls(f"{UKV}:UKVRecord")
+    it = StreamInterp(prog, put, {HS: nfields, "_FILE_HEADER": 3}, rec_cls)
+    kpar, vpar = put.params()[1], put.params()[2]
+    it.run(put.node.body)
+    H = Aff.sym(f"{HS}.size")
+    E0 = Aff.sym("self._eof")
+    klen, vlen = Aff.sym(f"len({kpar})"), Aff.sym(f"len({vpar})")
+    writes = [e for e in it.events if e.kind == "write"]
+    if not writes:
+        raise AnalysisError("put: no stream write found")
+    facts = {}
+    # contiguous, append-only: the first write starts at _eof, every later one where the previous ended
+    prob = None
+    expect = E0
+    for w in writes:
+        if w.at is None or w.data["length"] is None:
+            prob = (w, f"`{short(w.node, 50)}` writes at an offset / with a length the analysis cannot follow")
+            break
+        if not (w.at - expect).is_zero():
+            d = w.at - expect
+            prob = (w, f"`{short(w.node, 50)}` writes at {_rel(w.at)} while the bytes written so far end at {_rel(expect)}: " +
+                    ("bytes that are already on disk are overwritten" if nonneg(-d, {f"{HS}.size": 1, f"len({kpar})": 0, f"len({vpar})": 0}) else
+                     "a gap is left that a crash at this point turns into a block of zeros - read back as an empty key with an empty value"))
+            break
+        expect = w.at + w.data["length"]
+    facts["append-only"] = Fact(prob is None, (prob[0].node if prob else writes[0].node), f"{len(writes)} piece(s) written back to back from self._eof", prob[1] if prob else "")
+    # layout: header(len(key), len(value)) | key | value
+    kinds = []
+    for w in writes:
+        v = w.data["value"]
+        if isinstance(v, Packed):
+            a = v.args
+            okp = v.struct == HS and len(a) == 2 and isinstance(a[0], Aff) and isinstance(a[1], Aff) and a[0] == klen and a[1] == vlen
+            kinds.append("header" if okp else f"pack({', '.join(str(x) for x in a)})")
+        else:
+            kinds.append(getattr(v, "text", "?"))
+    facts["layout"] = Fact(kinds == ["header", kpar, vpar], writes[0].node, f"writes header(len({kpar}), len({vpar})) | {kpar} | {vpar}",
+                           f"put writes {kinds}; a block is header(len({kpar}), len({vpar})) | {kpar} | {vpar}")
+    # index entry
+    stores = [e for e in it.events if e.kind == "store" and e.data["container"] == "self._toc"]
+    if len(stores) != 1:
+        raise AnalysisError(f"put: {len(stores)} index stores on the main path")
+    st = stores[0]
+    rec = st.data["value"]
+    hdrw = [w for w in writes if isinstance(w.data["value"], Packed)]
+    start = (hdrw[0] if hdrw else writes[0]).at
+    okr = isinstance(rec, Record) and all(isinstance(rec.fields.get(f_), Aff) for f_ in ("pos", "key_len", "record_len")) and start is not None and \
+        rec.fields["pos"] == start and rec.fields["key_len"] == klen and rec.fields["record_len"] == vlen and norm(st.data["key_node"]) == kpar
+    shown = ", ".join(f"{f_}={rec.fields.get(f_)}" for f_ in ("pos", "key_len", "record_len")) if isinstance(rec, Record) else "?"
+    facts["record"] = Fact(okr, st.node, f"indexed under {kpar} as UKVRecord({shown})",
+                           f"put indexes `{short(st.data['key_node'], 20)}` as UKVRecord({shown}); the block starts at {_rel(start) if start is not None else '?'} with lengths (len({kpar}), len({vpar}))")
+    # _eof afterwards
+    eofs = [e for e in it.events if e.kind == "attr-store" and e.data["path"] == "self._eof"]
+    if eofs:
+        v = eofs[-1].data["value"]
+        end = (start + H + klen + vlen) if start is not None else None
+        oke = isinstance(v, Aff) and end is not None and (v - end).is_zero()
+        facts["eof"] = Fact(oke, eofs[-1].node, "_eof = end of the block written", f"_eof becomes {_rel(v) if isinstance(v, Aff) else '?'}; the block written ends at {_rel(end) if end is not None else '?'}")
+    facts["_interp"] = it
+    return facts
+
+
+def _rel(a):
+    return str(a).replace("self._eof", "_eof")
